@@ -179,20 +179,24 @@ def attribute(v):
     """Known-finding attribution: mechanism predicate + counterfactual (never by case hash or values)."""
     info = v.get("info") or {}
     case = v.get("case") or {}
+    meta = info.get("meta_after") or {}
     if (
         v["kind"] == "launch-observes-different-config"
         and info.get("what") == "register"
         and not info.get("observed_poison")
-        and (info.get("meta_after") or {}).get("loops_done", 0) >= 1
+        and (meta.get("loops_done", 0) >= 1 or meta.get("loops_skipped", 0) >= 1)
         and case.get("vec") is not None
     ):
-        # predicate holds: a launch *after* a completed loop observes a really written (non-poison) value.
+        # predicate holds: a launch *after* a completed (or skipped) loop observes a really written (non-poison) value.
         from vf.counterfactual.overlap import guarded_loop_level_overlap
 
         with guarded_loop_level_overlap():
             again = run_one(case["text"], case["args"], [((), case["vec"])], R.new_result(), fname=case.get("fname", "main"))
         if not again:
-            return "overlap-extra-setup-after-last-iteration"
+            if meta.get("loops_done", 0) >= 1:
+                return "overlap-extra-setup-after-last-iteration"
+            # only zero-trip loops were passed: the setup moved in front of the loop ran although the body never did
+            return "overlap-moved-setup-runs-for-zero-trip-loop"
     return None
 
 
